@@ -69,6 +69,8 @@ def expr(e):
     k = e["k"]
     if k == "lit":
         return lit(e["t"], e["v"])
+    if k == "big":
+        return e["text"]
     if k == "flit":
         return ("-" if e["neg"] else "") + "%d.%d" % (e["w"], e["f"]) + ("#" if e["t"] == "D" else "")
     if k == "var":
